@@ -6,9 +6,8 @@
   * `C16_slots_genpos`              for a segment in general position every preallocated slot of
                                     `intersection_metadata` is written: the slots are the crossings of
                                     `C16_metadata_spec`, no `(0, NaN)` is left
-  * `C16_hits_ranks`                `filter(!nan).enumerate()`: the identifiers step 2 works with are the RANKS among
-                                    the written slots: `0, 1, …, #written - 1`
-  * `C16_hits_all_written`          … which are the slot numbers when every slot is written
+  * `C16_hits_slot_numbers`         `enumerate().filter(!nan)` (/repo 2e893a8): the hits are exactly the written slots,
+                                    each under its own SLOT number; unwritten slots contribute nothing, shift nothing
   * `C16_group_sorted`              per edge, the hits are all the hits of that edge, each once, by non-decreasing `t`
   * `C16_intersection_ids_spec`     for EVERY iteration order of the `HashMap`: the hit of rank `k`, `i`-th of its edge
                                     `e` in the order of `t`, receives the dart `fh[i]` of the edge's block of new darts
@@ -21,19 +20,27 @@
                                     exactly one new dart pair on its edge, in the order of `t`, and its entry of
                                     `intersection_darts` is the dart of that vertex on the side that was hit.
   * `C16_intersection_ids_distinct` distinct hits receive distinct darts, all inside the allocated block
-  * `C16_nan_slot_shifts_ids`       the defect D16c, in the model: the entries of `intersection_darts` at the positions
-                                    `≥ #written` stay `NULL_DART_ID` — when a slot is left at `(0, NaN)` (an edge through
-                                    a grid corner) before a written one, the last written slots have no dart (step 4
-                                    reads `intersection_darts[slot]`: dart 0, `build_base_edge` panics), and the
-                                    written slots in between get the dart of another intersection.
+  * `C16_intersection_darts_spec`   steps 1 + 2 on a slot vector: the written slot `k` gets its dart at `res[k]` — also with
+    `C16_intersection_darts_distinct`  unwritten slots (corner crossings) before it: the positive form of finding D16c
+    `C16_unwritten_slot_null`       (ids were ranks after the filter; fixed in /repo 2e893a8); an unwritten slot keeps 0
+  * `C16_insert_edge_spec`          the MAP after step 3 on one edge (C14's `insertVerticesOnEdge` on the block of the
+                                    edge with its sorted positions): well formed, C14's `InsertResult` chain, the `i`-th
+                                    hit reads `fh[i]` / `sh[len-1-i]` with `β1 (β2 sh[len-1-i]) = fh[i]`, and the vertex of
+                                    `fh[i]` carries the point at position `t_i`.  NOT proved: the induction over all edges
+                                    (each insertion leaves the other edges' hypotheses intact by `InsertResult`'s frame
+                                    clauses; validated by the `gids` tie)
 
-  Tie: `slotsOf` is compared with the real step 1 through the hook (`gcrossd`, also on segments through grid corners);
-  the functions of step 2 are crate-private and not behind the hook: they are NOT tied directly (their effect is: the
-  end-to-end oracle, and the panic predicted by `C16_nan_slot_shifts_ids` is what the `corner` stream observes, on exactly
-  the cases where a NaN slot precedes a written one).
+  Tie: `slotsOf` is compared with the real step 1 through the hook `verif::intersection_data` (`gcrossd`, also on segments
+  through grid corners / ending on grid lines); steps 2 + 3 (`stepsTwoThree`, `Model/GrisubalInsert.lean`) are compared with
+  the hook `verif::intersection_darts` (`gids`: the vector of darts, `wf` and the full snapshot of the map after insertion
+  as identical text, the iteration order of the real `HashMap` being read off the implementation's result and handed to
+  the model, which is parametric in it — the theorems hold for every order), on random slot vectors and on the real slot
+  vectors of corner / on-line geometries.
 -/
 import Mathlib.Data.List.Nodup
 import Honeycomb.Props.C16Cross
+import Honeycomb.Props.C14b
+import Honeycomb.Model.GrisubalInsert
 
 namespace HC.C16
 open HC
@@ -61,38 +68,57 @@ theorem C16_slots_genpos {g : GGrid} {eps : Rat} {a b : Pt} (H : GenPos g eps a 
   rw [e', List.length_map, h3, Nat.sub_self]
   simp
 
-/-! ## `filter(!nan).enumerate()` -/
+/-! ## `enumerate().filter(!nan)` -/
 
-/-- the identifiers of step 2 are the ranks among the written slots -/
-theorem C16_hits_ranks (b2 : Nat → Nat) (slots : List Slot) :
-    (hitsOf b2 slots).map (fun x => x.2.idx) = List.range (slots.filterMap id).length := by
+theorem filterMap_sublist_map {α β : Type} {f : α → Option β} {g : α → β} (h : ∀ x y, f x = some y → y = g x) :
+    ∀ l : List α, (l.filterMap f).Sublist (l.map g)
+  | [] => List.Sublist.slnil
+  | x :: l => by
+      rw [List.filterMap_cons, List.map_cons]
+      cases hf : f x with
+      | none => exact (filterMap_sublist_map h l).cons _
+      | some y => rw [h x y hf]; exact (filterMap_sublist_map h l).cons_cons _
+
+/-- **C16, step 2 — identifiers are slot numbers**: the hits are exactly the written slots, each under its own slot
+    number `k` (the `k` of `GeometryVertex::Intersec(k)`), with its edge and its position measured from the edge's
+    identifier dart; unwritten slots contribute nothing and shift nothing -/
+theorem C16_hits_slot_numbers (b2 : Nat → Nat) (slots : List Slot) (x : Nat × Hit) :
+    x ∈ hitsOf b2 slots ↔ ∃ k d t, slots[k]? = some (some (d, t)) ∧
+      x = (edgeOf b2 d, { idx := k, t := if edgeOf b2 d ≠ d then 1 - t else t, dart := d }) := by
   unfold hitsOf
-  rw [List.map_map]
-  have : ((fun x : Nat × Hit => x.2.idx) ∘ fun x : (Nat × Rat) × Nat =>
-      (edgeOf b2 x.1.1, ({ idx := x.2, t := if edgeOf b2 x.1.1 ≠ x.1.1 then 1 - x.1.2 else x.1.2, dart := x.1.1 } : Hit))) =
-      Prod.snd := by
-    funext x; rfl
-  rw [this, List.zipIdx_map_snd, List.range_eq_range']
+  rw [List.mem_filterMap]
+  constructor
+  · rintro ⟨⟨sl, k⟩, hm, hx⟩
+    rw [List.mem_zipIdx_iff_getElem?] at hm
+    cases sl with
+    | none => simp at hx
+    | some dt =>
+        simp only [Option.map_some, Option.some.injEq] at hx
+        exact ⟨k, dt.1, dt.2, by simpa using hm, hx.symm⟩
+  · rintro ⟨k, d, t, hk, rfl⟩
+    exact ⟨(some (d, t), k), List.mem_zipIdx_iff_getElem?.2 hk, rfl⟩
 
 theorem hits_idx_nodup (b2 : Nat → Nat) (slots : List Slot) : ((hitsOf b2 slots).map (fun x => x.2.idx)).Nodup := by
-  rw [C16_hits_ranks]; exact List.nodup_range
+  unfold hitsOf
+  rw [List.map_filterMap]
+  have hsub := filterMap_sublist_map (g := fun x : Slot × Nat => x.2)
+    (f := fun x : Slot × Nat => Option.map (fun y : Nat × Hit => y.2.idx) (x.1.map fun dt =>
+      (edgeOf b2 dt.1, ({ idx := x.2, t := if edgeOf b2 dt.1 ≠ dt.1 then 1 - dt.2 else dt.2, dart := dt.1 } : Hit))))
+    (by
+      intro x y hy
+      cases hx : x.1 with
+      | none => rw [hx] at hy; simp at hy
+      | some dt => rw [hx] at hy; simp at hy; exact hy.symm) slots.zipIdx
+  refine List.Nodup.sublist hsub ?_
+  rw [List.zipIdx_map_snd]
+  exact List.nodup_range'
 
 theorem hits_idx_lt (b2 : Nat → Nat) (slots : List Slot) {x : Nat × Hit} (hx : x ∈ hitsOf b2 slots) :
-    x.2.idx < (slots.filterMap id).length := by
-  have : x.2.idx ∈ (hitsOf b2 slots).map (fun x => x.2.idx) := List.mem_map.2 ⟨x, hx, rfl⟩
-  rw [C16_hits_ranks] at this
-  exact List.mem_range.1 this
-
-/-- when every slot is written, the `k`-th hit is the `k`-th slot: rank = slot number -/
-theorem C16_hits_all_written (b2 : Nat → Nat) (l : List (Nat × Rat)) (k : Nat) (d : Nat) (t : Rat)
-    (hk : l[k]? = some (d, t)) :
-    (hitsOf b2 (l.map some))[k]? =
-      some (edgeOf b2 d, { idx := k, t := if edgeOf b2 d ≠ d then 1 - t else t, dart := d }) := by
-  unfold hitsOf
-  have : (l.map some).filterMap id = l := by
-    rw [List.filterMap_map]; simp
-  rw [this, List.getElem?_map, List.getElem?_zipIdx, hk]
-  simp
+    x.2.idx < slots.length := by
+  obtain ⟨k, d, t, hk, rfl⟩ := (C16_hits_slot_numbers b2 slots x).1 hx
+  rcases Nat.lt_or_ge k slots.length with h | h
+  · exact h
+  · rw [List.getElem?_eq_none h] at hk; cases hk
 
 /-! ## the stable sort by `t` -/
 
@@ -324,23 +350,15 @@ theorem assign_idx (hnd : (hs.map (fun x => x.2.idx)).Nodup) (hk : keys.Nodup) :
     obtain ⟨h, hh, e2⟩ := List.mem_map.1 hv
     exact ⟨(e, h), mem_groupOf.1 hh, e2.symm⟩
 
-/-- **C16, step 2 — the dart of every hit, for every iteration order of the `HashMap`**: let `keys` be the order in
-    which the map yields its keys (each key once, every edge that was hit among them).  The hit `h` of the edge `e`,
-    `e` being the `j`-th key and `h` the `i`-th hit of `e` in the order of `t`, receives
-    `res[h.idx] = fh[i]` when it hit the identifier dart of the edge and `sh[len - 1 - i]` when it hit the opposite dart,
-    where `fh ++ sh` is the block `base + 2·(number of hits of the keys before e) ..+ 2·len` of `len = #hits of e`
-    pairs of new darts -/
-theorem C16_intersection_ids_spec (hnd : (hs.map (fun x => x.2.idx)).Nodup) (hk : keys.Nodup)
-    (hall : ∀ x, x ∈ hs → x.1 ∈ keys) (n : Nat) (hn : ∀ x, x ∈ hs → x.2.idx < n)
-    {e : Nat} {h : Hit} (hx : (e, h) ∈ hs) :
-    ∃ j i, keys[j]? = some e ∧ (groupOf hs e)[i]? = some h ∧
-      let len := (groupOf hs e).length
-      let off := base + 2 * (((groupsOf hs keys).map (·.2.length)).take j).sum
+/-- the value of `res[h.idx]` for given positions `j` (of the edge among the keys) and `i` (of the hit among the sorted
+    hits of the edge) -/
+theorem intersection_ids_at (hnd : (hs.map (fun x => x.2.idx)).Nodup) (hk : keys.Nodup)
+    (n : Nat) (hn : ∀ x, x ∈ hs → x.2.idx < n)
+    {e : Nat} {h : Hit} (hx : (e, h) ∈ hs) {j i : Nat} (hj : keys[j]? = some e) (hi : (groupOf hs e)[i]? = some h) :
       (intersectionIds n (groupsOf hs keys) (slicesFrom base ((groupsOf hs keys).map (·.2.length))))[h.idx]? =
-        some (if h.dart = e then off + i else off + (len + (len - 1 - i))) := by
-  obtain ⟨j, hj⟩ := List.getElem?_of_mem (hall _ hx)
-  obtain ⟨i, hi⟩ := List.getElem?_of_mem (mem_groupOf.2 hx)
-  refine ⟨j, i, hj, hi, ?_⟩
+        some (if h.dart = e then base + 2 * (((groupsOf hs keys).map (·.2.length)).take j).sum + i
+              else base + 2 * (((groupsOf hs keys).map (·.2.length)).take j).sum +
+                ((groupOf hs e).length + ((groupOf hs e).length - 1 - i))) := by
   obtain ⟨nd, _, hz, hnd'⟩ := zip_get (hs := hs) (base := base) hj
   have hilt : i < (groupOf hs e).length := by
     rcases Nat.lt_or_ge i (groupOf hs e).length with h' | h'
@@ -370,6 +388,24 @@ theorem C16_intersection_ids_spec (hnd : (hs.map (fun x => x.2.idx)).Nodup) (hk 
   by_cases hd : h.dart = e
   · rw [if_pos hd, if_pos hd, hget i (by omega)]
   · rw [if_neg hd, if_neg hd, hhl, hget _ (by omega)]
+
+/-- **C16, step 2 — the dart of every hit, for every iteration order of the `HashMap`**: let `keys` be the order in
+    which the map yields its keys (each key once, every edge that was hit among them).  The hit `h` of the edge `e`,
+    `e` being the `j`-th key and `h` the `i`-th hit of `e` in the order of `t`, receives
+    `res[h.idx] = fh[i]` when it hit the identifier dart of the edge and `sh[len - 1 - i]` when it hit the opposite dart,
+    where `fh ++ sh` is the block `base + 2·(number of hits of the keys before e) ..+ 2·len` of `len = #hits of e`
+    pairs of new darts -/
+theorem C16_intersection_ids_spec (hnd : (hs.map (fun x => x.2.idx)).Nodup) (hk : keys.Nodup)
+    (hall : ∀ x, x ∈ hs → x.1 ∈ keys) (n : Nat) (hn : ∀ x, x ∈ hs → x.2.idx < n)
+    {e : Nat} {h : Hit} (hx : (e, h) ∈ hs) :
+    ∃ j i, keys[j]? = some e ∧ (groupOf hs e)[i]? = some h ∧
+      let len := (groupOf hs e).length
+      let off := base + 2 * (((groupsOf hs keys).map (·.2.length)).take j).sum
+      (intersectionIds n (groupsOf hs keys) (slicesFrom base ((groupsOf hs keys).map (·.2.length))))[h.idx]? =
+        some (if h.dart = e then off + i else off + (len + (len - 1 - i))) := by
+  obtain ⟨j, hj⟩ := List.getElem?_of_mem (hall _ hx)
+  obtain ⟨i, hi⟩ := List.getElem?_of_mem (mem_groupOf.2 hx)
+  exact ⟨j, i, hj, hi, intersection_ids_at (base := base) hnd hk n hn hx hj hi⟩
 
 theorem prefix_lt : ∀ {L : List Nat} {j j' k : Nat}, L[j]? = some k → j < j' → (L.take j).sum + k ≤ (L.take j').sum
   | [], j, _, _, hj, _ => by simp at hj
@@ -450,61 +486,177 @@ theorem ids_unwritten (hnd : (hs.map (fun x => x.2.idx)).Nodup) (hk : keys.Nodup
 
 end
 
-/-- **C16, steps 1 + 2 in general position**: when every slot is written (`C16_slots_genpos`), the slot `k` holding
-    `(d, t)` receives a dart of the block of its edge `edge_id(d)` (the `j`-th in iteration order): the `i`-th of the
-    first half when `d` is the identifier dart of the edge, the `i`-th from the end of the second half otherwise, `i`
-    being the position of the hit among the hits of that edge in the order of `t` (measured from the identifier dart) -/
-theorem C16_intersection_darts_spec (b2 : Nat → Nat) (base : Nat) (l : List (Nat × Rat)) (keys : List Nat)
-    (hk : keys.Nodup) (hall : ∀ x, x ∈ l → edgeOf b2 x.1 ∈ keys) {k d : Nat} {t : Rat} (hkd : l[k]? = some (d, t)) :
-    let hs := hitsOf b2 (l.map some)
+/-- **C16, steps 1 + 2 — every written slot gets its dart under its own number** (the positive form of the repaired
+    D16c), for every iteration order `keys` of the `HashMap`: the slot `k` holding `(d, t)` receives at `res[k]` a dart of
+    the block of its edge `e = edge_id(d)` (the `j`-th key): the `i`-th of the first half when `d` is the identifier dart
+    of the edge, the `i`-th from the end of the second half otherwise, `i` being the position of the hit among the hits of
+    that edge in the order of `t` (measured from the identifier dart).  Unwritten slots in between change nothing. -/
+theorem C16_intersection_darts_spec (b2 : Nat → Nat) (base : Nat) (slots : List Slot) (keys : List Nat)
+    (hk : keys.Nodup) (hall : ∀ (k d : Nat) (t : Rat), slots[k]? = some (some (d, t)) → edgeOf b2 d ∈ keys) {k d : Nat} {t : Rat}
+    (hkd : slots[k]? = some (some (d, t))) :
+    let hs := hitsOf b2 slots
     let e := edgeOf b2 d
     let h : Hit := { idx := k, t := if e ≠ d then 1 - t else t, dart := d }
     ∃ j i, keys[j]? = some e ∧ (groupOf hs e)[i]? = some h ∧
-      (intersectionDarts b2 base (l.map some) keys)[k]? =
+      (intersectionDarts b2 base slots keys)[k]? =
         some (if d = e then base + 2 * (((groupsOf hs keys).map (·.2.length)).take j).sum + i
               else base + 2 * (((groupsOf hs keys).map (·.2.length)).take j).sum +
                 ((groupOf hs e).length + ((groupOf hs e).length - 1 - i))) := by
   intro hs e h
-  have hx : (e, h) ∈ hs := List.mem_of_getElem? (C16_hits_all_written b2 l k d t hkd)
-  have hfm : (l.map some).filterMap id = l := by rw [List.filterMap_map]; simp
+  have hx : (e, h) ∈ hs := (C16_hits_slot_numbers b2 slots _).2 ⟨k, d, t, hkd, rfl⟩
   have hall' : ∀ x, x ∈ hs → x.1 ∈ keys := by
     intro x hx'
-    obtain ⟨y, hy, rfl⟩ := List.mem_map.1 hx'
-    rw [hfm] at hy
-    obtain ⟨i, hi⟩ := List.getElem?_of_mem hy
-    rw [List.getElem?_zipIdx] at hi
-    cases hl : l[i]? with
-    | none => rw [hl] at hi; cases hi
-    | some v =>
-        rw [hl] at hi
-        simp only [Option.map_some, Option.some.injEq] at hi
-        rw [← hi]
-        exact hall v (List.mem_of_getElem? hl)
-  have hn : ∀ x, x ∈ hs → x.2.idx < (l.map some).length := by
-    intro x hx'
-    have := hits_idx_lt b2 (l.map some) hx'
-    rw [hfm] at this
-    rw [List.length_map]; exact this
-  obtain ⟨j, i, h1, h2, h3⟩ := C16_intersection_ids_spec (base := base) (hits_idx_nodup b2 (l.map some)) hk hall' _ hn hx
+    obtain ⟨k', d', t', hk', rfl⟩ := (C16_hits_slot_numbers b2 slots x).1 hx'
+    exact hall k' d' t' hk'
+  have hn : ∀ x, x ∈ hs → x.2.idx < slots.length := fun x hx' => hits_idx_lt b2 slots hx'
+  obtain ⟨j, i, h1, h2, h3⟩ := C16_intersection_ids_spec (base := base) (hits_idx_nodup b2 slots) hk hall' _ hn hx
   exact ⟨j, i, h1, h2, h3⟩
 
-/-- **C16 — finding D16c in the model**: the identifiers of step 2 are ranks among the WRITTEN slots; the entries of
-    `intersection_darts` from position `#written` on are never assigned and stay `NULL_DART_ID`.  So as soon as a slot
-    left at `(0, NaN)` (an edge through a grid corner) precedes a written slot, the LAST written slot `k` — whose
-    `GeometryVertex::Intersec(k)` step 4 resolves with `intersection_darts[k]` — has dart 0 -/
-theorem C16_nan_slot_shifts_ids (b2 : Nat → Nat) (base : Nat) (slots : List Slot) (keys : List Nat) (hk : keys.Nodup)
-    {k : Nat} (hlt : k < slots.length) (hge : (slots.filterMap id).length ≤ k) :
+/-- **C16, steps 1 + 2 — an unwritten slot keeps `NULL_DART_ID`** (and nothing reads it: its vertex is a
+    `GeometryVertex::IntersecCorner`, resolved from its dart, not from `intersection_darts`) -/
+theorem C16_unwritten_slot_null (b2 : Nat → Nat) (base : Nat) (slots : List Slot) (keys : List Nat) (hk : keys.Nodup)
+    {k : Nat} (hkn : slots[k]? = some none) :
     (intersectionDarts b2 base slots keys)[k]? = some 0 := by
+  have hlt : k < slots.length := by
+    rcases Nat.lt_or_ge k slots.length with h | h
+    · exact h
+    · rw [List.getElem?_eq_none h] at hkn; cases hkn
   unfold intersectionDarts
-  exact ids_unwritten (base := base) (hits_idx_nodup b2 slots) hk _ k hlt
-    (fun x hx e => by have := hits_idx_lt b2 slots hx; omega)
+  refine ids_unwritten (base := base) (hits_idx_nodup b2 slots) hk _ k hlt ?_
+  intro x hx e
+  obtain ⟨k', d, t, hk', rfl⟩ := (C16_hits_slot_numbers b2 slots x).1 hx
+  simp only at e
+  rw [e, hkn] at hk'
+  cases hk'
+
+/-- distinct written slots receive distinct darts, inside the allocated block -/
+theorem C16_intersection_darts_distinct (b2 : Nat → Nat) (base : Nat) (slots : List Slot) (keys : List Nat)
+    (hk : keys.Nodup) (hall : ∀ (k d : Nat) (t : Rat), slots[k]? = some (some (d, t)) → edgeOf b2 d ∈ keys) {k k' : Nat}
+    {dt dt' : Nat × Rat} (hkd : slots[k]? = some (some dt)) (hkd' : slots[k']? = some (some dt')) (hne : k ≠ k') :
+    ∃ x y, (intersectionDarts b2 base slots keys)[k]? = some x ∧ (intersectionDarts b2 base slots keys)[k']? = some y ∧
+      x ≠ y ∧ base ≤ x ∧
+      x < base + 2 * ((groupsOf (hitsOf b2 slots) keys).map (·.2.length)).sum := by
+  have hall' : ∀ x, x ∈ hitsOf b2 slots → x.1 ∈ keys := by
+    intro x hx'
+    obtain ⟨k', d', t', hk', rfl⟩ := (C16_hits_slot_numbers b2 slots x).1 hx'
+    exact hall k' d' t' hk'
+  have m1 := (C16_hits_slot_numbers b2 slots _).2 ⟨k, dt.1, dt.2, hkd, rfl⟩
+  have m2 := (C16_hits_slot_numbers b2 slots _).2 ⟨k', dt'.1, dt'.2, hkd', rfl⟩
+  exact C16_intersection_ids_distinct (base := base) (hits_idx_nodup b2 slots) hk hall' _
+    (fun x hx' => hits_idx_lt b2 slots hx') m1 m2 (by intro e; injection e with _ e2; injection e2 with e3; exact hne e3)
+
+/-! ## step 3 on one edge: the map -/
+
+theorem range'_getD {a n i : Nat} (h : i < n) : (List.range' a n).getD i 0 = a + i := by
+  rw [List.getD_eq_getElem?_getD, List.getElem?_range' h]; simp
+
+/-- **C16, steps 2 + 3 on one edge — the map after `insert_vertices_on_edge(e, block of e, sorted positions of e)`**
+    (`insert_intersections` does this for every key; `insertVerticesOnEdge` is the model of C14, tied there and, through
+    the hook `intersection_darts`, here).  On a well-formed map, `e` the `j`-th key, `len` hits on it, `off` the start of
+    its block, `fh = off ..+ len`, `sh = off + len ..+ len`: if the call succeeds then
+    * the result is well formed and has C14's `InsertResult` shape: `e → fh[0] → … → fh[len-1] → old successor`, the
+      mirrored chain `β2 e → sh[0] → …` on a two-dart edge, β2 pairing the two sides in reverse, all else unchanged;
+    * the `i`-th hit `h` of the edge in the order of `t` reads `intersection_darts[h.idx] = fh[i]` if it hit the identifier
+      dart, and `sh[len-1-i]` otherwise — a dart with `β1 (β2 ·) = fh[i]`, i.e. of the same vertex as `fh[i]`;
+    * that vertex carries the point at position `h.t` of the edge: `v1 + (v2 - v1)·h.t`.
+    Hence: every crossing gets exactly one new dart pair on its edge, in the order of `t`, and its entry in
+    `intersection_darts` is the dart of its vertex on the side that was hit. -/
+theorem C16_insert_edge_spec {m m' : Map Val} {hs : List (Nat × Hit)} {keys : List Nat} {base n j e : Nat}
+    (hnd : (hs.map (fun x => x.2.idx)).Nodup) (hk : keys.Nodup) (hn : ∀ x, x ∈ hs → x.2.idx < n)
+    (hj : keys[j]? = some e) (hwf : WF 3 m) (he : C01.InUse m e)
+    (hlive : ∀ d, d ∈ List.range' (base + 2 * (((groupsOf hs keys).map (·.2.length)).take j).sum)
+      (2 * (groupOf hs e).length) → m.unused d = false)
+    (hr : run (insertVerticesOnEdge m.n e
+      (List.range' (base + 2 * (((groupsOf hs keys).map (·.2.length)).take j).sum) (2 * (groupOf hs e).length))
+      ((groupOf hs e).map (·.t))) m = (.ok (), m')) :
+    WF 3 m' ∧
+    C14.InsertResult m m' e
+      (List.range' (base + 2 * (((groupsOf hs keys).map (·.2.length)).take j).sum) (groupOf hs e).length)
+      (List.range' (base + 2 * (((groupsOf hs keys).map (·.2.length)).take j).sum + (groupOf hs e).length)
+        (groupOf hs e).length) ∧
+    ∃ v1 v2 : Val, ∀ (i : Nat) (h : Hit), (groupOf hs e)[i]? = some h →
+      ∃ x, (intersectionIds n (groupsOf hs keys) (slicesFrom base ((groupsOf hs keys).map (·.2.length))))[h.idx]? = some x ∧
+        (h.dart = e → x = base + 2 * (((groupsOf hs keys).map (·.2.length)).take j).sum + i) ∧
+        (h.dart ≠ e → x = base + 2 * (((groupsOf hs keys).map (·.2.length)).take j).sum +
+            ((groupOf hs e).length + ((groupOf hs e).length - 1 - i)) ∧
+          (m.β 2 e ≠ 0 → m'.β 1 (m'.β 2 x) = base + 2 * (((groupsOf hs keys).map (·.2.length)).take j).sum + i)) ∧
+        ∀ vid, (run (vertexId2 m.n (base + 2 * (((groupsOf hs keys).map (·.2.length)).take j).sum + i)) m').1 = .ok vid →
+          m'.att 0 vid = some (placeVal v1 v2 (some h.t)) := by
+  generalize hoff : base + 2 * (((groupsOf hs keys).map (·.2.length)).take j).sum = off at *
+  generalize hlen : (groupOf hs e).length = len at *
+  have htl : ((groupOf hs e).map (·.t)).length = len := by rw [List.length_map, hlen]
+  have hsplit : List.range' off (2 * len) = List.range' off len ++ List.range' (off + len) len := by
+    rw [show 2 * len = len + len by omega, ← List.range'_append, Nat.one_mul]
+  have htake : (List.range' off (2 * len)).take ((groupOf hs e).map (·.t)).length = List.range' off len := by
+    rw [htl, hsplit, List.take_left' (by rw [List.length_range'])]
+  have hdrop : (List.range' off (2 * len)).drop ((groupOf hs e).map (·.t)).length = List.range' (off + len) len := by
+    rw [htl, hsplit, List.drop_left' (by rw [List.length_range'])]
+  have hfhnd : ((List.range' off (2 * len)).take ((groupOf hs e).map (·.t)).length).Nodup := by
+    rw [htake]; exact List.nodup_range'
+  obtain ⟨hwf', hres⟩ := C14.C14_insertVertices_beta_structure m m' e _ _ hwf he hlive hfhnd
+    (fun _ => List.nodup_range') hr
+  rw [htake, hdrop] at hres
+  obtain ⟨vid1, vid2, v1, v2, _, _, _, _, hpos, _⟩ := C14.C14_new_vertex_position_full m m' e _ _ hwf he hlive hfhnd
+    (fun _ => List.nodup_range') hr
+  rw [htake] at hpos
+  refine ⟨hwf', hres, v1, v2, ?_⟩
+  intro i h hi
+  have hilt : i < len := by
+    rcases Nat.lt_or_ge i len with h' | h'
+    · exact h'
+    · rw [List.getElem?_eq_none (by rw [hlen]; exact h')] at hi; cases hi
+  have hx : (e, h) ∈ hs := mem_groupOf.1 (List.mem_of_getElem? hi)
+  have hval := intersection_ids_at (base := base) hnd hk n hn hx hj hi
+  rw [hoff, hlen] at hval
+  refine ⟨_, hval, ?_, ?_, ?_⟩
+  · intro hd; rw [if_pos hd]
+  · intro hd
+    rw [if_neg hd]
+    refine ⟨rfl, fun he2 => ?_⟩
+    -- β2 of `sh[len-1-i]` is `(e :: fh)[i]`, whose β1 is `fh[i]`
+    obtain ⟨hpz, hpl1, _⟩ := hres.pairs he2
+    have hchain := C14.B1Chain.index (List.range' off len) e i hres.side1.1 (by rw [List.length_range']; exact hilt)
+    have hfi : (e :: List.range' off len).getD (i + 1) 0 = off + i := by
+      rw [List.getD_cons_succ, range'_getD hilt]
+    have hb2 : m'.β 2 (off + (len + (len - 1 - i))) = (e :: List.range' off len).getD i 0 := by
+      cases i with
+      | zero =>
+          have hl : (List.range' (off + len) len).getLastD (m.β 2 e) = off + (len + (len - 1 - 0)) := by
+            rw [C14.getLastD_index, List.length_range']
+            have : len = (len - 1) + 1 := by omega
+            rw [this, List.getD_cons_succ, range'_getD (by omega)]
+            omega
+          rw [← hl, hpl1]; rfl
+      | succ i' =>
+          have := C14.zip_index (Q := fun p => m'.β 2 p.1 = p.2 ∧ m'.β 2 p.2 = p.1) hpz (len - (i' + 1))
+            (by simp only [List.length_cons, List.length_range']; omega)
+            (by simp only [List.length_reverse, List.length_range']; omega)
+          have e1 : (m.β 2 e :: List.range' (off + len) len).getD (len - (i' + 1)) 0 = off + (len + (len - 1 - (i' + 1))) := by
+            have : len - (i' + 1) = (len - 1 - (i' + 1)) + 1 := by omega
+            rw [this, List.getD_cons_succ, range'_getD (by omega)]
+            omega
+          have e2 : (List.range' off len).reverse.getD (len - (i' + 1)) 0 = (e :: List.range' off len).getD (i' + 1) 0 := by
+            rw [List.getD_cons_succ, List.getD_eq_getElem?_getD,
+              List.getElem?_eq_getElem (by simp only [List.length_reverse, List.length_range']; omega), List.getElem_reverse]
+            simp only [List.length_range', List.getElem_range', Option.getD_some]
+            rw [range'_getD (by omega)]
+            omega
+          rw [e1, e2] at this
+          exact this.1
+    rw [hb2, hchain, hfi]
+  · intro vid hv
+    refine hpos (h.t, off + i) ?_ vid hv
+    have : (((groupOf hs e).map (·.t)).zip (List.range' off len))[i]? = some (h.t, off + i) := by
+      rw [List.getElem?_zip_eq_some]
+      exact ⟨by rw [List.getElem?_map, hi]; rfl, by rw [List.getElem?_range' hilt]; simp⟩
+    exact List.mem_of_getElem? this
 
 /-! ## examples -/
 
 /-- a 2 × 1 grid: β2 pairs dart 2 (right side of cell 0) with dart 8 (left side of cell 1) -/
 def exB2 : Nat → Nat := fun d => if d = 2 then 8 else if d = 8 then 2 else 0
 
--- two crossings of the inner edge {2, 8}, one from each side, and one of the outer edge {3}: ranks = slots.
+-- two crossings of the inner edge {2, 8}, one from each side, and one of the outer edge {3}.
 -- Edge 2 gets the block 9 10 | 11 12: 2 → 9 → 10 with 9 at t = 1/2 and 10 at t = 3/4, 8 → 11 → 12 on the other side;
 -- slot 2 (dart 2, t = 1/2) reads 9; slot 0 (dart 8, t = 1/4 from its own origin = 3/4) reads 11, the dart of the
 -- vertex {10, 11} on the side of dart 8
@@ -514,12 +666,42 @@ example : intersectionDarts exB2 9 [some (8, 1/4), some (3, 1/2), some (2, 1/2)]
 -- hypotheses of `C16_intersection_darts_spec` on this example
 example : ([2, 3] : List Nat).Nodup ∧ ∀ x, x ∈ [((8 : Nat), (1/4 : Rat)), (3, 1/2), (2, 1/2)] → edgeOf exB2 x.1 ∈ [2, 3] := by
   decide +kernel
-example := C16_intersection_darts_spec exB2 9 [((8 : Nat), (1/4 : Rat)), (3, 1/2), (2, 1/2)] [2, 3] (by decide)
-  (by decide +kernel) (k := 0) (d := 8) (t := 1/4) (by decide +kernel)
--- D16c: the first slot was left at (0, NaN) by a corner crossing: slot 2 (rank 1) reads NULL_DART_ID, and slot 1
--- (rank 0) gets its dart only by luck of being numbered 0 … here slot 1 reads the dart meant for rank 1
-example : intersectionDarts exB2 9 [none, some (3, 1/2), some (2, 1/2)] [2, 3] = [11, 9, 0] := by decide +kernel
-example : (intersectionDarts exB2 9 [none, some (3, 1/2), some (2, 1/2)] [2, 3])[2]? = some 0 :=
-  C16_nan_slot_shifts_ids exB2 9 _ _ (by decide) (by decide) (by decide)
+-- unwritten slots (corner crossings) in front and in between: every written slot keeps its own number (D16c repaired;
+-- before /repo 2e893a8 this was [11, 9, 0, 0, 0]: slot 4 read NULL_DART_ID)
+example : intersectionDarts exB2 9 [none, some (8, 1/4), none, some (3, 1/2), some (2, 1/2)] [2, 3] = [0, 11, 0, 13, 9] := by
+  decide +kernel
+example := C16_intersection_darts_spec exB2 9 [none, some (8, 1/4), none, some (3, 1/2), some (2, 1/2)] [2, 3] (by decide)
+  (by
+    intro k d t hk
+    have : k < 5 := by
+      rcases Nat.lt_or_ge k 5 with h | h
+      · exact h
+      · rw [List.getElem?_eq_none (by simpa using h)] at hk; cases hk
+    rcases (by omega : k = 0 ∨ k = 1 ∨ k = 2 ∨ k = 3 ∨ k = 4) with rfl | rfl | rfl | rfl | rfl <;>
+      simp at hk <;> (obtain ⟨rfl, _⟩ := hk; decide))
+  (k := 4) (d := 2) (t := 1/2) (by decide +kernel)
+example : (intersectionDarts exB2 9 [none, some (8, 1/4), none, some (3, 1/2), some (2, 1/2)] [2, 3])[2]? = some 0 :=
+  C16_unwritten_slot_null exB2 9 _ _ (by decide) (by decide)
+
+/-- the 2 × 1 grid of the examples above with the six darts `add_free_darts(6)` allocated (9 … 14) -/
+def exGridMap : Map Val :=
+  { (Map.empty 3 6 15 : Map Val) with
+    b := #[#[0, 4, 1, 2, 3, 8, 5, 6, 7, 0, 0, 0, 0, 0, 0], #[0, 2, 3, 4, 1, 6, 7, 8, 5, 0, 0, 0, 0, 0, 0],
+           #[0, 0, 8, 0, 0, 0, 0, 0, 2, 0, 0, 0, 0, 0, 0]]
+    a := #[#[none, some (.pt 0 0 0), some (.pt 1 0 0), some (.pt 1 1 0), some (.pt 0 1 0), none, some (.pt 2 0 0),
+             some (.pt 2 1 0), none, none, none, none, none, none, none, none],
+           Array.replicate 16 none, Array.replicate 16 none, Array.replicate 16 none,
+           Array.replicate 16 none, Array.replicate 16 none] }
+
+def exSlots : List Slot := [none, some (8, 1/4), none, some (3, 1/2), some (2, 1/2)]
+
+-- every hypothesis of `C16_insert_edge_spec` holds on the inner edge 2 of the grid (first key, block 9 10 | 11 12)
+example := C16_insert_edge_spec (m := exGridMap) (hs := hitsOf (exGridMap.β 2) exSlots) (keys := [2, 3]) (base := 9) (n := 5)
+  (j := 0) (e := 2) (hits_idx_nodup _ _) (by decide) (fun x hx => hits_idx_lt _ exSlots hx) (by decide)
+  (by decide +kernel) (by decide +kernel) (by decide +kernel) (C14.ok_of_fst (by decide +kernel))
+-- … and the result: 2 → 9 → 10 → 3 with 9 at (1, 1/2) and 10 at (1, 3/4); slot 1 (dart 8) reads 11 with β1 (β2 11) = 10
+example : let m' := (run (insertVerticesOnEdge exGridMap.n 2 [9, 10, 11, 12] [1/2, 3/4]) exGridMap).2
+    (m'.β 1 2, m'.β 1 9, m'.β 1 10, m'.β 1 (m'.β 2 11), m'.att 0 9, m'.att 0 10) =
+      (9, 10, 3, 10, some (.pt 1 (1/2) 0), some (.pt 1 (3/4) 0)) := by decide +kernel
 
 end HC.C16
